@@ -25,10 +25,11 @@ EXPLANATION = (
     "none); (R6) wherever a coerce method compares null-ness after the conversion with null-ness of its input, the two "
     "masks are combined element-wise (isna(result) & notna(input)) before any aggregation; (R7) a coerce method returns its input unchanged only under a guard that compares with the target type. (R8) definite assignment: no function of pandera/engines/ reads a local that a branch-only path from its entry leaves unassigned (CFG may-analysis, optimistic about try bodies and loop bodies, correlated guards pruned) - an UnboundLocalError there would escape coercion instead of a ParserError. " 
     " (R9) polars container coercion stays reachable when a column's name is not a frame column (the name of a regex column is a pattern): truth table of the guards of the per-column coercion call. " 
+    " (R10) a pandas-engine coerce method uses Series-only accessors (.dt, .apply, .cat) on its container only under a hasattr / isinstance guard, because Index components hand a pandas Index to coerce. " 
     "NOT decided: everything value-level - exactness, idempotence, agreement of coerce/coerce_value/check."
 )
 LEVEL_RULE = "one obligation per try_coerce implementation / helper / schema-level site / coerce method / operator"
-FLOORS = {"R1": 4, "R2": 4, "R3": 4, "R4": 20, "R5": 1, "R6": 2, "R7": 2, "R8": 1, "R9": 1}
+FLOORS = {"R1": 4, "R2": 4, "R3": 4, "R4": 20, "R5": 1, "R6": 2, "R7": 2, "R8": 1, "R9": 1, "R10": 2}
 
 HELPERS = {"numpy_pandas_coerce_failure_cases", "polars_coerce_failure_cases", "polars_failure_cases_from_coercible"}
 ENGINE_MODS = ["pandera/engines/numpy_engine.py", "pandera/engines/pandas_engine.py", "pandera/engines/polars_engine.py",
@@ -443,6 +444,59 @@ def r9_polars_container_coverage(ctx):
         raise AnalysisError("polars container _coerce_dtype_helper: per-column coercion call not found")
 
 
+SERIES_ONLY = {"dt", "apply", "cat", "sparse"}
+
+
+def r10_coerce_accepts_an_index(ctx):
+    """Index components are coerced by handing the pandas Index itself to the dtype's coerce (IndexBackend /
+    MultiIndexBackend call `schema.coerce_dtype(check_obj.index)`).  `.dt`, `.apply`, `.cat` exist on a Series but not on
+    an Index, so a coerce method may use them on its container only under a guard (`hasattr(x, "dt")`, isinstance Series /
+    Index): unguarded, coercing an already conforming Index of dates / decimals raises AttributeError, which try_coerce
+    turns into a coercion error with failure_cases=None."""
+    from ..cfg import cfg_of
+    from ..util import enclosing_stmt
+    m = ctx.ix.module("pandera/engines/pandas_engine.py")
+    n = 0
+    for f in m.all_functions:
+        root = f
+        while getattr(root, "parent", None) is not None:
+            root = root.parent
+        if root.name not in ("coerce", "_coerce") or root.cls is None:
+            continue
+        if len(f.positional) < 1:
+            continue
+        cont = {p for p in f.params if p not in ("self", "cls", "pandas_dtype", "value")}
+        if not cont:
+            continue
+        ex = Expander(f.node)
+        cfg = None
+        for x in walk_no_nested(f.node):
+            if not (isinstance(x, ast.Attribute) and x.attr in SERIES_ONLY and isinstance(x.ctx, ast.Load)):
+                continue
+            base = x.value
+            names = {y.id for d in ex.closure(base) for y in ast.walk(d) if isinstance(y, ast.Name)}
+            if not (names & cont):
+                continue
+            n += 1
+            cfg = cfg or cfg_of(f.node)
+            st = enclosing_stmt(x)
+            node = cfg.node_of(st)
+            guards = [txt(t) for t, pol in (cfg.guards(node.id) if node is not None else [])]
+            par = getattr(x, "_parent", None)
+            while par is not None and par is not st:
+                if isinstance(par, ast.IfExp):
+                    guards.append(txt(par.test))
+                par = getattr(par, "_parent", None)
+            guarded = any(("hasattr(" in g and f"'{x.attr}'" in g.replace('"', "'")) or "isinstance(" in g for g in guards)
+            ctx.ob("R10", f, f"{f.short}: `.{x.attr}` on the container only where it is a Series", guarded,
+                   f"guarded by {guards}" if guarded else
+                   f"`{txt(x)[:50]}` assumes a Series: Index(<this dtype>, coerce=True) hands a pandas Index to coerce, `.{x.attr}` raises AttributeError and the "
+                   "already conforming index is reported as uncoercible (failure_cases=None)", f.loc(x))
+    ctx.stats["series_only_accessors_in_coerce"] = n
+    if n < 2:
+        raise AnalysisError(f"pandas_engine coerce methods: expected Series-only accessor uses (DateTime .dt ...), found {n}")
+
+
 def run(ctx):
     from ..defassign import check_modules
     check_modules(ctx, "R8", ('pandera/engines/',), "escapes coercion instead of a ParserError / coerced data")
@@ -453,5 +507,6 @@ def run(ctx):
     r5_operator_lint(ctx)
     r6_new_nulls(ctx)
     r9_polars_container_coverage(ctx)
+    r10_coerce_accepts_an_index(ctx)
     r7_identity_shortcut(ctx)
     ctx.assume("astype/cast of pandas/polars return new objects")
